@@ -141,13 +141,17 @@ def cases(draw) -> t.Any:
     srcs = [s for s in ORDER if draw(st.booleans())]
     pos = draw(st.sampled_from(POSITIONS))
     form = draw(st.sampled_from(FORMS))
-    direction = draw(st.sampled_from(['from', 'into', 'from', 'into', 'ctor']))
+    direction = draw(st.sampled_from(['from', 'into', 'from', 'into', 'ctor', 'ctor-outer']))
     if direction == 'into' and draw(st.integers(0, 3)) == 3:
         pos = draw(st.sampled_from(ANY_POSITIONS))
     if direction == 'ctor':
         # the constructor of the containing class "performs conversion" of its arguments: with the field's own converter, else the
         # class's handlers (own or inherited), else the type's protocol / built-ins / registered handlers; no call, no enclosing class
         pos = draw(st.sampled_from(['direct', 'List', 'Dict', 'Optional', 'Tuple', 'Bag']))
+    if direction == 'ctor-outer':
+        # the enclosing class is constructed from the same data from_data would be given: the nested class's own handlers still
+        # come before those of the class around it (no call-level handlers exist on this path)
+        pos = draw(st.sampled_from(['direct', 'List', 'Dict', 'Optional', 'Tuple']))
     sub = draw(st.integers(0, 3)) == 3          # instantiate a subclass of the containing class
     # handlers on the containing class / its base that do NOT provide a converter for M (another type, or declining):
     # they must not stop the search from going on to the enclosing class
@@ -276,6 +280,24 @@ def check(case: t.Any, ctx: Ctx) -> None:
         data['inner'] = [{'m': wrap_data}] if inner_wrap == 'List' else {'m': wrap_data}
 
     ctx.evaluated()
+    if direction == 'ctor-outer':
+        present_o = [s_ for s_ in ORDER if s_ in srcs and s_ != 'C']
+        expected_o = present_o[0] if present_o else None
+        (k, got) = outcome(lambda: Outer(**data))
+        if expected_o is None:
+            if k == 'ok':
+                ctx.fail('no-source-no-converter', f"ctor-outer:{pos}", f"{ident}: no source provides a converter for M, but Outer(inner=...) returned {short(got, 100)}")
+            return
+        if k != 'ok':
+            ctx.fail('precedence-ctor', f"outer:{expected_o}:{type(got).__name__}", f"{ident}: Outer(inner={data['inner']!r}) raised {type(got).__name__}: {str(got)[:200]}; "
+                     f"Outer.from_data of the same data gives the converter of source {expected_o}")
+            return
+        x = got.inner[0] if inner_wrap == 'List' else got.inner
+        seen = unwrap(x.m)
+        if not isinstance(seen, Labeled) or seen.source != expected_o:
+            ctx.fail('precedence-ctor', f"outer:want-{expected_o}-got-{getattr(seen, 'source', '?')}", f"{ident}: Outer(inner={data['inner']!r}).inner.m was produced by "
+                     f"{getattr(seen, 'source', seen)!r}; the documented order (and Outer.from_data of the same data) gives {expected_o!r}")
+        return
     if direction == 'ctor':
         present_c = [s_ for s_ in ('F', 'O', 'I', 'P', 'G') if s_ in srcs]
         expected_c = present_c[0] if present_c else None
